@@ -52,13 +52,17 @@ RKind(i) ==
   CASE i = 1 -> <<K("file", Q("/var/www/index.html"))>>
     [] i = 2 -> <<K("directory", Q("/var/www"))>>
     [] i = 3 -> <<K("proxy", Q("127.0.0.1:8000"))>>
-    [] i = 4 -> <<K("proxy", Q("127.0.0.1:8000,127.0.0.1:8080")), K("load_balancer_mode", Q("round-robin"))>>
-    [] i = 5 -> <<K("load_balancer_mode", Q("random")), K("proxy", Q("a:1,b:2,c:3"))>>
+    [] i = 4 -> <<K("proxy", Q("127.0.0.1:8080,127.0.0.1:8000")), K("load_balancer_mode", Q("round-robin"))>>
+    [] i = 5 -> <<K("load_balancer_mode", Q("random")), K("proxy", Q("b:2,c:3,a:1"))>>
     [] i = 6 -> <<K("redirect", Q("http://localhost/"))>>
     [] i = 7 -> <<K("websocket", Q("localhost:1234"))>>
     [] i = 8 -> <<K("file", Q("/srv/app.html")), K("websocket", Q("localhost:9999"))>>
     [] i = 9 -> <<K("colour", Q("blue")), K("directory", Q("/srv/my files")), K("load_balancer_mode", Q("random"))>>
-Pats(h, j, a) == [x \in 1..a |-> "/h" \o ToString(h) \o "r" \o ToString(j) \o (IF x = 1 THEN "/*" ELSE "/p" \o ToString(x))]
+\* pattern names are chosen so that file order is neither the ascending nor the descending order of the names
+\* (routes of the default host: q c x, of a host: d w k; patterns of one route: /w/* /b /t): a loader that sorts is noticed
+RTag(h, j) == IF h = 0 THEN <<"q", "c", "x">>[j] ELSE <<"d", "w", "k">>[j]
+PSuf == <<"/w/*", "/b", "/t">>
+Pats(h, j, a) == [x \in 1..a |-> "/h" \o ToString(h) \o RTag(h, j) \o PSuf[x]]
 MkRoutes(h, shapes) == [j \in 1..Len(shapes) |-> R(Pats(h, j, shapes[j][2]), RKind(shapes[j][1]))]
 Shapes13 == { <<k, 1>> : k \in 1..9 } \cup { <<2, 2>>, <<5, 3>>, <<6, 2>>, <<7, 2>> }
 Shapes4  == { <<2, 1>>, <<4, 1>>, <<7, 2>>, <<1, 1>> }
@@ -84,7 +88,7 @@ FamOneHost(A, n, B) == { Plain(Ast(RootOf(1, <<K("port", "81")>>, d, <<r>>), <<>
 FamTwoHosts(T, orders) == { Plain(Ast(RootOf(o, <<K("threads", "2")>>, d, <<r1, r2>>), <<>>, NoBl)) :
                                r1 \in SeqsUpTo(T, 1), r2 \in SeqsUpTo(T, 1), d \in {<<>>, Dflt}, o \in orders }
 FullRoot(o) == RootOf(o, ScalarRoot(AllScal, Base12), <<<<2, 2>>, <<5, 3>>, <<8, 1>>>>,
-                      << <<<<6, 1>>, <<1, 1>>, <<7, 2>>>>, <<<<4, 1>>, <<9, 1>>, <<3, 1>>>> >>)
+                      << <<<<6, 1>>, <<1, 1>>, <<7, 2>>>>, <<<<4, 1>>, <<9, 1>>, <<3, 1>>>>, <<<<2, 1>>>> >>)
 FamFull == { Plain(Ast(FullRoot(o), <<>>, BlFor(AllScal))) : o \in 1..3 }
 
 \* include splitting: a run i..j of a sequence of entries moves to a new file
